@@ -40,7 +40,7 @@ def sim_for(par, simcfg):
         sim["ha"] = par["ha"]
     else:
         sim["banner"] = "" if par["marker"] == "absent" else "managed by NetSPoC"
-        sim.update(needenable=(typ != "linux"), enablepass=True, saveask=True, askyes=False)
+        sim.update(needenable=(typ != "linux"), enablepass=True, saveask=True, askyes=par.get("askyes", ""))
     return sim
 
 
@@ -73,7 +73,8 @@ def one_session(bins, root, par, fline=-1, fkind="", tag="s", timeout=1):
             sim.update(fault_req=fline, fault_kind=fkind)
         else:
             sim.update(fault_line=fline, fault_kind=fkind)
-    r = S.run_session(bins, home, typ, par["fe"], par["verb"], sim, tag=tag, verb_arg=par.get("verbspell"))
+    r = S.run_session(bins, home, typ, par["fe"], par["verb"], sim, tag=tag, verb_arg=par.get("verbspell"),
+                      nolog=bool(par.get("nolog")))
     r["files"] = S.all_files(home)
     shutil.rmtree(home, ignore_errors=True)
     return r
@@ -162,6 +163,9 @@ def plan_sessions(prop, tier, pars):
                     # other spellings of the verb: refused, or a compare - never an approve
                     for sp in ("Compare", "COMPARE"):
                         jobs.append((dict(p, verbspell=sp), "plain"))
+                if p["fe"] == "drc" and not bad and p["n"] > 0:
+                    # `drc -C` without a log directory
+                    jobs.append((dict(p, nolog=True), "plain"))
                 if not bad and p["n"] > 0 and (tier == "thorough" or p["fe"] == "doapprove"):
                     jobs.append((p, "faults"))
         elif prop in ("C09", "C17"):
@@ -172,6 +176,10 @@ def plan_sessions(prop, tier, pars):
                 continue
             if p["n"] == 0:
                 jobs.append((p, "plain"))
+                if p["type"] not in S.HTTPS_TYPES and p["fe"] == "drc":
+                    # ssh asks about an unknown host key first (old and new wording of the question)
+                    for ay in ("old", "new"):
+                        jobs.append((dict(p, askyes=ay), "plain" if tier == "quick" else "faults"))
                 continue
             if p["verb"] == "compare" and tier == "quick" and p["fe"] == "drc":
                 jobs.append((p, "plain"))
